@@ -127,7 +127,7 @@ def _embed_time_series_array(
 
 
 def _recurrence_plot(
-    int n_time, int dimension, float threshold,
+    int n_time, int dimension, double threshold,
     ndarray[DFIELD_t, ndim=2] embedding,
     ndarray[ADJ_t, ndim=2] R):
 
@@ -151,7 +151,7 @@ def _recurrence_plot(
 
 
 def _twins_s(
-    int N, int n_time, int dimension, float threshold, int min_dist,
+    int N, int n_time, int dimension, double threshold, int min_dist,
     ndarray[DFIELD_t, ndim=3] embedding_array,
     ndarray[ADJ_t, ndim=2] R, ndarray[DEGREE_t, ndim=1] nR,
     twins):
